@@ -1,10 +1,20 @@
 package rules
 
 import (
+	"fmt"
+	"go/token"
 	"go/types"
+	"sort"
+	"strings"
 
+	"golang.org/x/tools/go/ssa"
+
+	"s2scheck/internal/flow"
+	"s2scheck/internal/report"
 	"s2scheck/internal/typegraph"
 )
+
+func init() { Registry["C14"] = c14 }
 
 // walkSASites lists search-attribute containers below t: *common.SearchAttributes values and
 // map[string]*common.Payload fields whose name mentions search attributes.
@@ -19,4 +29,327 @@ func walkSASites(m *apiModel, t types.Type) map[string]string {
 		return true
 	})
 	return out
+}
+
+func c14(c *Ctx) (*report.Result, error) {
+	res := newResult("C14")
+	res.RuleDoc["O14.1"] = "container coverage: every search-attribute container (*common.SearchAttributes, or map[string]*common.Payload named ...SearchAttributes) below an AdminService message or a history event is a struct field named in searchAttributeFieldNames with a type handled by visitSearchAttributes; events blobs below AdminService messages are decoded"
+	res.RuleDoc["O14.2"] = "no abort before a container: a field named in searchAttributeFieldNames whose type is not handled makes the visitor stop with an error, so no root may contain such a field together with a handled container; Skip/Stop classes of the visitor are the reviewed ones"
+	res.RuleDoc["O14.3"] = "key rebuild keeps values: translateIndexedFields stores exactly once per input entry into a fresh map, the stored value is the entry's own value, the key is the input key or the matcher's result chosen by the matcher's verdict, and the input map is never written"
+	res.RuleDoc["O14.4"] = "service filter: the search-attribute translator's MatchMethod is the negated WorkflowService prefix test, the unary interceptor consults MatchMethod before every translate call, and WorkflowService has no streaming method"
+	res.RuleDoc["O14.5"] = "direction: same orientation obligations as O13.1 applied to the search-attribute maps"
+	res.Floors["O14.1"] = 6
+
+	m, err := loadAPIModel(c)
+	if err != nil {
+		return res, err
+	}
+	tabs, err := readInterceptorTables(c)
+	if err != nil {
+		return res, err
+	}
+	saTypes, err := typeSwitchCases(tabs.pk, "visitSearchAttributes")
+	if err != nil {
+		return res, err
+	}
+	handled := func(t types.Type) bool {
+		for _, h := range saTypes {
+			if typegraph.ShortType(h) == typegraph.ShortType(t) {
+				return true
+			}
+		}
+		return false
+	}
+	// ---- O14.1 / O14.2
+	hePkg := m.pkgs[histPkg]
+	heObj, _ := hePkg.Scope().Lookup("HistoryEvent").(*types.TypeName)
+	if heObj == nil {
+		return res, fmt.Errorf("anchor: history.HistoryEvent not found")
+	}
+	roots := []apiRoot{{Service: "blob", Method: "events", Role: "content", Type: heObj.Type().(*types.Named)}}
+	for _, r := range m.roots {
+		if r.Service == "AdminService" {
+			roots = append(roots, r)
+		}
+	}
+	allSites := map[string]string{}
+	paths := 0
+	for _, r := range roots {
+		handledHere, unhandledNamed := []string{}, []string{}
+		m.w.Walk(types.NewPointer(r.Type), func(n *typegraph.Node) bool {
+			paths++
+			if n.Holder != typegraph.StructField || n.Owner == nil {
+				return true
+			}
+			key := typegraph.SiteKey(n.Owner, n.Field)
+			if isSAContainer(n.Field) {
+				if _, ok := allSites[key]; !ok {
+					allSites[key] = typegraph.ShortType(n.Type) + "|" + r.Name() + ": " + n.PathString()
+				}
+				if tabs.saNames[n.Field.Name()] && handled(n.Type) {
+					handledHere = append(handledHere, key)
+				}
+			} else if tabs.saNames[n.Field.Name()] && !handled(n.Type) {
+				unhandledNamed = append(unhandledNamed, key+" ("+typegraph.ShortType(n.Type)+")")
+			}
+			// events blobs below admin messages must be decoded for the SA walk as well
+			if form := dataBlobForm(n.Type); form != "" && r.Service == "AdminService" {
+				if cls, ok := dataBlobClass[key]; ok && cls[0] == "events" {
+					k2 := "blob " + key
+					if _, seen := allSites[k2]; !seen {
+						allSites[k2] = form + "|" + r.Name() + ": " + n.PathString()
+					}
+				}
+			}
+			return true
+		})
+		if len(unhandledNamed) > 0 {
+			sort.Strings(unhandledNamed)
+			construct := "root " + r.Name()
+			if len(handledHere) > 0 {
+				res.Viol("O14.2", construct, "", "the message holds both a field that makes visitSearchAttributes stop with an error ("+strings.Join(unhandledNamed, ", ")+") and a real container ("+strings.Join(handledHere, ", ")+"): depending on walk order the container is never translated")
+			} else {
+				res.Hold("O14.2", construct, "", "field(s) named like a container but of another type ("+strings.Join(unhandledNamed, ", ")+") abort the walk with an error; the message holds no real container, nothing is lost")
+			}
+		}
+	}
+	for _, k := range sortedKeys(allSites) {
+		parts := strings.SplitN(allSites[k], "|", 2)
+		if strings.HasPrefix(k, "blob ") {
+			field := k[strings.LastIndex(k, ".")+1:]
+			res.Check(tabs.blobNames[field], "O14.1", k, "", "events blob decoded by visitSearchAttributes (name in dataBlobFieldNames)", "events blob below an AdminService message is not decoded: search attributes inside it keep their keys; "+parts[1])
+			continue
+		}
+		field := k[strings.LastIndex(k, ".")+1:]
+		// type of the site
+		switch {
+		case !tabs.saNames[field]:
+			res.Viol("O14.1", k, "", "search-attribute container in a field whose Go name "+field+" is not in searchAttributeFieldNames", parts[1])
+		case !handledTypeString(parts[0], saTypes):
+			res.Viol("O14.1", k, "", "container type "+parts[0]+" is not a case of the type switch in visitSearchAttributes", parts[1])
+		default:
+			res.Hold("O14.1", k, "", parts[0]+"; e.g. "+parts[1])
+		}
+	}
+	checkWalkCuts(c, res, "O14.2")
+
+	// ---- O14.3
+	if f := resolve(c, res, "O14.3", anchor{"interceptor", "", "translateIndexedFields"}); f != nil {
+		checkTranslateIndexedFields(c, res, f)
+	}
+	// ---- O14.4
+	checkSAMethodFilter(c, res, m)
+	// ---- O14.5
+	checkTranslationOrientation(c, res, "O14.5", false, true)
+
+	res.Explanation = fmt.Sprintf("Type-graph walk from the %d AdminService message roots plus history.HistoryEvent (content of events blobs), %d type paths: every search-attribute container must be named in searchAttributeFieldNames (read from source) with a type handled by visitSearchAttributes' type switch, and no root mixes an aborting look-alike field with a real container. SSA of translateIndexedFields (exactly one store per entry, value identity, key choice control-dependent on the matcher, input never written), of NewSearchAttributeTranslator's method filter and the interceptor's use of it, and the orientation obligations shared with C13. Does not decide behaviour under key collisions.", len(roots)-1, paths)
+	res.Extra["exhaustive"] = true
+	res.Extra["type_paths"] = paths
+	res.Assumptions = []string{"a search-attribute container is *common.SearchAttributes or a map[string]*common.Payload whose field name mentions search attributes (the two forms the property names)"}
+	return res, nil
+}
+
+func handledTypeString(ts string, handled []types.Type) bool {
+	for _, h := range handled {
+		if typegraph.ShortType(h) == ts {
+			return true
+		}
+	}
+	return false
+}
+
+func checkTranslateIndexedFields(c *Ctx, res *report.Result, f *ssa.Function) {
+	rule := "O14.3"
+	in := f.Params[0]
+	var mk *ssa.MakeMap
+	var updates []*ssa.MapUpdate
+	var next *ssa.Next
+	for _, b := range f.Blocks {
+		for _, ins := range b.Instrs {
+			switch x := ins.(type) {
+			case *ssa.MakeMap:
+				mk = x
+			case *ssa.MapUpdate:
+				updates = append(updates, x)
+			case *ssa.Next:
+				next = x
+			}
+		}
+	}
+	if mk == nil || next == nil || len(updates) == 0 {
+		res.Undec(rule, "translateIndexedFields: shape", fnPos(c.Prog, f), "expected a fresh map, a range over the input and map stores")
+		return
+	}
+	rng, _ := next.Iter.(*ssa.Range)
+	res.Check(rng != nil && rng.X == ssa.Value(in), rule, "translateIndexedFields: ranges over the input map", instrPos(c.Prog, next), "range fields", "the loop does not range over the input map: entries can be lost")
+	var kv, vv ssa.Value
+	for _, r := range *next.Referrers() {
+		if ex, ok := r.(*ssa.Extract); ok {
+			if ex.Index == 1 {
+				kv = ex
+			}
+			if ex.Index == 2 {
+				vv = ex
+			}
+		}
+	}
+	// matcher call on the key
+	var mcall *ssa.Call
+	for _, call := range flow.Calls(f) {
+		cc := call.Common()
+		if cc.Value == ssa.Value(f.Params[1]) {
+			mcall, _ = call.(*ssa.Call)
+		}
+	}
+	okMatcherArg := mcall != nil && len(mcall.Call.Args) == 1 && mcall.Call.Args[0] == kv
+	res.Check(okMatcherArg, rule, "translateIndexedFields: matcher applied to the entry's key", fnPos(c.Prog, f), "match(key)", "the matcher is not applied to each entry's key")
+	var newKey, verdict ssa.Value
+	if mcall != nil {
+		for _, r := range *mcall.Referrers() {
+			if ex, ok := r.(*ssa.Extract); ok {
+				if ex.Index == 0 {
+					newKey = ex
+				}
+				if ex.Index == 1 {
+					verdict = ex
+				}
+			}
+		}
+	}
+	for i, u := range updates {
+		construct := fmt.Sprintf("translateIndexedFields: store #%d", i+1)
+		pos := instrPos(c.Prog, u)
+		if u.Map != ssa.Value(mk) {
+			res.Viol(rule, construct, pos, "a map other than the fresh result map is written (the input map must stay untouched)")
+			continue
+		}
+		if u.Value != vv {
+			res.Viol(rule, construct, pos, "the stored value is not the entry's own value: search-attribute values must be untouched")
+			continue
+		}
+		switch u.Key {
+		case kv:
+			res.Hold(rule, construct, pos, "result[key] = value (unmapped or unchanged key preserved)")
+		case newKey:
+			// must be on the verdict-true side
+			ok := false
+			for _, g := range flow.NormGuards(flow.Guards(u.Block())) {
+				if g.Cond == verdict && g.Side {
+					ok = true
+				}
+			}
+			res.Check(ok, rule, construct, pos, "result[newKey] = value under matched", "the renamed key is stored without the matcher having matched")
+		default:
+			res.Viol(rule, construct, pos, "the key stored is neither the entry's key nor the matcher's result")
+		}
+	}
+	// exactly one store per iteration: from the loop body no path back to the loop head avoids a store,
+	// and no store is followed by another store before the head
+	head := next.Block()
+	body := head.Succs[0]
+	isUpd := func(ins ssa.Instruction) bool { _, ok := ins.(*ssa.MapUpdate); return ok }
+	isHead := func(ins ssa.Instruction) bool { return ins == ssa.Instruction(next) }
+	r := flow.FindPath(flow.Point{Block: body}, isHead, isUpd, nil)
+	res.Check(!r.Found, rule, "translateIndexedFields: every entry is stored", instrPos(c.Prog, next), "no path through the loop body skips the store", "an iteration can complete without storing the entry: keys would be dropped ("+flow.BlockPath(r.Via)+")")
+	twice := false
+	for _, u := range updates {
+		r2 := flow.FindPath(flow.After(u), isUpd, isHead, nil)
+		if r2.Found {
+			twice = true
+		}
+	}
+	res.Check(!twice, rule, "translateIndexedFields: at most one store per entry", instrPos(c.Prog, next), "stores are on exclusive branches", "an entry can be stored under two keys in one iteration")
+	// returns the fresh map on the non-nil path
+	okRet := false
+	for _, b := range f.Blocks {
+		for _, ins := range b.Instrs {
+			if ret, ok := ins.(*ssa.Return); ok && ret.Results[0] == ssa.Value(mk) {
+				okRet = true
+			}
+		}
+	}
+	res.Check(okRet, rule, "translateIndexedFields: returns the rebuilt map", fnPos(c.Prog, f), "ok", "the rebuilt map is not returned")
+}
+
+func checkSAMethodFilter(c *Ctx, res *report.Result, m *apiModel) {
+	rule := "O14.4"
+	wfP, _, err := servicePrefixes(c)
+	if err != nil {
+		res.Undec(rule, "service prefixes", "", err.Error())
+		return
+	}
+	ctor := resolve(c, res, rule, anchor{"interceptor", "", "NewSearchAttributeTranslator"})
+	if ctor != nil {
+		// the closure stored in matchMethod
+		var cl *ssa.Function
+		for _, b := range ctor.Blocks {
+			for _, ins := range b.Instrs {
+				if st, ok := ins.(*ssa.Store); ok {
+					if fa, ok := st.Addr.(*ssa.FieldAddr); ok && flow.FieldName(fa.X.Type(), fa.Field) == "matchMethod" {
+						switch v := flow.Strip(st.Val).(type) {
+						case *ssa.Function:
+							cl = v
+						case *ssa.MakeClosure:
+							cl, _ = v.Fn.(*ssa.Function)
+						}
+					}
+				}
+			}
+		}
+		ok := false
+		why := "matchMethod is not a closure the checker can read"
+		if cl != nil {
+			why = "the filter is not !strings.HasPrefix(method, api.WorkflowServicePrefix)"
+			for _, b := range cl.Blocks {
+				for _, ins := range b.Instrs {
+					ret, isR := ins.(*ssa.Return)
+					if !isR {
+						continue
+					}
+					if u, isU := ret.Results[0].(*ssa.UnOp); isU && u.Op == token.NOT {
+						if call, isC := u.X.(*ssa.Call); isC && flow.IsCallTo(&call.Call, "strings", "", "HasPrefix") {
+							if s, isS := flow.ConstString(call.Call.Args[1]); isS && s == wfP && call.Call.Args[0] == ssa.Value(cl.Params[0]) {
+								ok = true
+							}
+						}
+					}
+				}
+			}
+		}
+		res.Check(ok, rule, "NewSearchAttributeTranslator: matchMethod excludes exactly the WorkflowService prefix", fnPos(c.Prog, ctor), "!HasPrefix(method, "+wfP+")", why)
+	}
+	if f := resolve(c, res, rule, anchor{"interceptor", "*saTranslator", "MatchMethod"}); f != nil {
+		u := methodUsesFields(f)
+		res.Check(u["matchMethod"], rule, "saTranslator.MatchMethod delegates to matchMethod", fnPos(c.Prog, f), "ok", "MatchMethod does not use the configured filter")
+	}
+	if f := resolve(c, res, rule, anchor{"interceptor", "*TranslationInterceptor", "Intercept"}); f != nil {
+		n := 0
+		for _, call := range flow.Calls(f) {
+			cc := call.Common()
+			if !cc.IsInvoke() || (cc.Method.Name() != "TranslateRequest" && cc.Method.Name() != "TranslateResponse") {
+				continue
+			}
+			n++
+			ok := false
+			for _, g := range flow.NormGuards(flow.Guards(call.Block())) {
+				if gc, isC := g.Cond.(*ssa.Call); isC && g.Side && gc.Call.IsInvoke() && gc.Call.Method.Name() == "MatchMethod" && gc.Call.Value == cc.Value {
+					if p, okp := flow.FieldPath(gc.Call.Args[0]); okp && strings.HasSuffix(p, ".FullMethod") {
+						ok = true
+					}
+				}
+			}
+			res.Check(ok, rule, fmt.Sprintf("Intercept: %s guarded by the same translator's MatchMethod(info.FullMethod)", cc.Method.Name()), instrPos(c.Prog, call), "ok", "a translator is applied without consulting its MatchMethod for this RPC")
+		}
+		if n < 2 {
+			res.Undec(rule, "Intercept: translate calls", fnPos(c.Prog, f), fmt.Sprintf("%d translate calls found", n))
+		}
+	}
+	// WorkflowService has no streaming method (the stream wrapper does not consult MatchMethod)
+	streams := 0
+	for _, r := range m.roots {
+		if r.Service == "WorkflowService" && strings.HasPrefix(r.Role, "stream") {
+			streams++
+		}
+	}
+	res.Check(streams == 0, rule, "WorkflowService has no streaming method", "", "the stream translator (which does not consult MatchMethod) can never carry a workflow-service response", fmt.Sprintf("%d streaming message roots in WorkflowService: the stream wrapper would translate aliases", streams))
 }
